@@ -144,6 +144,19 @@ def gen_cases(sess, rng, tb, tier, findings):
         for ver in (2, 1):
             A, B, n1 = variant(sess, rng, tb, cfg1, b2.steps, len(b2.steps), ver, 'same', [(1 << 56) | 1])
             evals += compare(A, B, n1, findings, cfg1, ver, 'same'); tie_cases.append(A)
+    # deterministic: a non-empty global mapping and mounts whose own mapping is degenerate (empty range = explicit "translate
+    # nothing here", identity, range 1, the largest range); after save/restore they must still hide the global mapping
+    if not os.environ.get('VFS_NO_DET'):
+        cfg3 = {'gmap': (0, 1000, 65536), 'rm': 0, 'no_open': 1, 'no_opendir': 1}
+        b3 = Case(sess, cfg3, tb); g3 = HistoryGen(b3, rng, use_maps=True); roots = []
+        for k, D in enumerate(DEGENERATE_MAPS):
+            st, o = g3.mount(path=mk_path(rng, [('N', 60 + k)], noise=False), map=D, ans=dict(okmount(rng), uid=5, gid=65535))
+            if o['status'] == 'ok': roots.append((o['vals'][0] << 56) | 1)
+        g3.mount(path=mk_path(rng, [('N', 70)], noise=False), map=None, ans=dict(okmount(rng), uid=5, gid=65535))
+        b3.finish()
+        for fresh in ('same', 'default'):
+            A, B, n1 = variant(sess, rng, tb, cfg3, b3.steps, len(b3.steps), 2, fresh, roots + [(6 << 56) | 1])
+            evals += compare(A, B, n1, findings, cfg3, 2, fresh); tie_cases.append(A)
     for pl in plans:
         base, g = base_history(sess, rng, tb, pl['cfg'], pl['n'] + (25 if pl['many'] else 0), pl['use_maps'], pl['root'], pl['many']); base.finish()
         issued = sorted(set(g.pool))[:4]
